@@ -24,6 +24,7 @@ EXPLANATION = (
     ' Added after seed round 3: signal_restore is understood also when folded into a loop over (signal, saved handler) pairs and the restored expression may replace only a None / false saved value by SIG_DFL; (5) inside the batch loop of process_input the top widget (and anything derived from it) is read afresh for every event.'
     ' Round 4: a signal that signal_init() does not replace (SIGCONT) is restored only under a flag raised where it is replaced; the Twisted capturing wrapper catches BaseException (C13.1).'
     ' Round 5: (7) TrioEventLoop takes off at most the one ExceptionGroup layer its own nursery adds; (8) PAIR: every hook MainLoop.start() registers (idle callback, input watchers, descriptor-change signal, started screen) is released by stop() on all its normal paths and _run() passes stop() on the normal and on the exceptional exit (before fix 35c16b8 an exception-terminated run() left the watchers and the idle redraw in the event loop); a `finally` around event_loop.run() must not contain return / raise / break.'
+    ' Round 6: (9) MEMO: every PopUpTarget entry point calls _update_overlay() before it routes to _current_widget (a batch of events is delivered without a redraw in between).'
 )
 NOT_DECIDED = "That the terminal really ends up in its initial modes (needs a pty), delivery order across reads, redraw-before-wait timing, failures inside MainLoop.start()/stop() themselves."
 ASSUMPTIONS = ["glib_loop.py cannot be imported here; its reports are informational only."]
@@ -516,6 +517,45 @@ def rule_exception_identity(ctx: Ctx) -> RuleResult:
     return rr
 
 
+def _redraw_armed(ctx: Ctx) -> RuleResult:
+    """'the screen is redrawn from the resulting widget state before the loop next waits': the redraw is the idle
+    callback, so every alarm / watch callback has to arm the idle run and a cancelled idle handle must be forgotten
+    (otherwise a later session on the same loop never redraws after input) - shared with C13.3."""
+    rr = c13.rule_idle_arming(ctx)
+    rr.clause = "C12.10"
+    return rr
+
+
+def rule_popup_fresh(ctx: Ctx) -> RuleResult:
+    """'each event is passed to the topmost widget': with pop_ups the topmost widget is PopUpTarget, which routes to
+    `_current_widget` - the original widget, or an Overlay with the open pop-up on top.  Which of the two it is
+    follows from the *current* rendering of the original widget; process_input() hands a whole batch of events over
+    without a redraw in between, so an event that opens or closes a pop-up changes the routing of the next one.
+    Every entry point of PopUpTarget that reads `_current_widget` therefore calls _update_overlay(size, ..) first
+    (the method that writes it) - render() alone refreshes it only at the next idle redraw."""
+    p = ctx.p
+    rr = RuleResult("MEMO", "C12.9", "every PopUpTarget entry point refreshes the overlay (_update_overlay) before it routes to _current_widget", floor=6)
+    cls = p.cls("urwid.widget.popup.PopUpTarget")
+    writers = [m for m in cls.methods.values() if m.name not in ("__init__",) and any(isinstance(n, ast.Attribute) and n.attr == "_current_widget" and isinstance(n.ctx, ast.Store) for n in m.own_nodes())]
+    if not writers:
+        raise AnalysisError("PopUpTarget: the method that writes _current_widget was not found")
+    wnames = {w.name for w in writers}
+    for m in cls.methods.values():
+        if m.name in wnames or m.name == "__init__":
+            continue
+        reads = [n for n in m.own_nodes() if isinstance(n, ast.Attribute) and n.attr == "_current_widget" and isinstance(n.ctx, ast.Load)]
+        if not reads:
+            continue
+        cfg = cfg_of(m)
+        ups = nodes_where(cfg, lambda c: isinstance(c, ast.Call) and isinstance(c.func, ast.Attribute) and c.func.attr in wnames)
+        rnodes = [x for x in cfg.nodes if x.ast is not None and any(isinstance(y, ast.Attribute) and y.attr == "_current_widget" and isinstance(y.ctx, ast.Load) for e in node_exprs(x) for y in ast.walk(e))]
+        ok = bool(ups) and all(cfg.dominated(r, ups) for r in rnodes)
+        rr.inst(short(m), True, {"entry_point": short(m), "refreshes_first": ok})
+        if not ok:
+            rr.add(finding("MEMO", m, reads[0], f"{m.name}() routes to self._current_widget without calling {sorted(wnames)[0]}() first: the overlay is then the one worked out at the last redraw - after an event of the same input batch opened or closed a pop-up the following events go to the wrong widget (keys typed right after the key that opens the pop-up reach the widget underneath)", construct=f"{m.name}: _current_widget used without refreshing the overlay"))
+    return rr
+
+
 def run(ctx: Ctx):
     return [
         rule_run_restores(ctx),
@@ -526,6 +566,8 @@ def run(ctx: Ctx):
         rule_fresh_topmost(ctx),
         _carry_over(ctx),
         rule_exception_identity(ctx),
+        rule_popup_fresh(ctx),
+        _redraw_armed(ctx),
     ]
 
 
@@ -534,6 +576,8 @@ from ..mutants import Mut  # noqa: E402
 _M = "urwid/event_loop/main_loop.py"
 _P = "urwid/display/_posix_raw_display.py"
 MUTANTS = [
+    Mut("popup-keypress-stale-overlay", "urwid/widget/popup.py", "PopUpTarget.keypress", "        self._update_overlay(size, True)\n", "", "MEMO|widget.popup.PopUpTarget.keypress|keypress: _current_widget used without refreshing the overlay"),
+    Mut("popup-mouse-stale-overlay", "urwid/widget/popup.py", "PopUpTarget.mouse_event", "        self._update_overlay(size, focus)\n", "", "MEMO|widget.popup.PopUpTarget.mouse_event|mouse_event: _current_widget used without refreshing the overlay"),
     Mut("trio-unwraps-every-singleton-group", "urwid/event_loop/trio_loop.py", "TrioEventLoop._handle_main_loop_exception", "        if isinstance(exc, BaseExceptionGroup) and len(exc.exceptions) == 1:", "        while isinstance(exc, BaseExceptionGroup) and len(exc.exceptions) == 1:", "PASS|event_loop.trio_loop.TrioEventLoop._handle_main_loop_exception"),
     Mut("sigcont-restored-unconditionally", "urwid/display/_posix_raw_display.py", "Screen.signal_restore", "        if self._sigcont_replaced:\n            self.signal_handler_setter(signal.SIGCONT, self._prev_sigcont_handler or signal.SIG_DFL)\n            self._sigcont_replaced = False", "        self.signal_handler_setter(signal.SIGCONT, self._prev_sigcont_handler or signal.SIG_DFL)", "PAIR|display._posix_raw_display.Screen.signal_restore"),
     Mut("twin-topmost-captured-but-unused", "urwid/event_loop/main_loop.py", "MainLoop.process_input", "        something_handled = False\n", "        something_handled = False\n        topmost = self._topmost_widget\n        del topmost\n", twin=True),
